@@ -31,6 +31,7 @@ import (
 	"fmt"
 	lru "github.com/hashicorp/golang-lru"
 	"sort"
+	"sync"
 )
 
 const (
@@ -108,6 +109,11 @@ type TxPool struct {
 
 	executed db.Database
 	batch    db.Batch
+
+	// lock makes the compound updates of received/executed/batch atomic with respect to each other:
+	// add's exists-check + push, MarkExecuted's record + remove, UnMarkExecuted's delete + re-add.
+	// It is a leaf lock: nothing called while holding it takes the chain lock or calls back into the pool.
+	lock sync.Mutex
 }
 
 var (
@@ -176,6 +182,9 @@ func (pool *TxPool) AddTransaction(tx *types.Transaction) (bool, error) {
 	//	return false, ErrEvicted
 	//}
 
+	pool.lock.Lock()
+	defer pool.lock.Unlock()
+
 	b, err := pool.add(tx)
 	if nil == err {
 		pool.refreshGateNonce(tx)
@@ -184,6 +193,9 @@ func (pool *TxPool) AddTransaction(tx *types.Transaction) (bool, error) {
 }
 
 func (pool *TxPool) MarkExecuted(header *types.BlockHeader, receipts types.Receipts, txs []*types.Transaction, evictedTxs []common.Hash) {
+	pool.lock.Lock()
+	defer pool.lock.Unlock()
+
 	txHashList := make([]interface{}, 0)
 
 	if receipts != nil && len(receipts) != 0 {
@@ -248,6 +260,9 @@ func (pool *TxPool) UnMarkExecuted(block *types.Block) {
 
 	mysql.DeleteLogs(block.Header.Height, block.Header.Hash)
 
+	pool.lock.Lock()
+	defer pool.lock.Unlock()
+
 	if evictedTxs != nil {
 		for _, hash := range evictedTxs {
 			pool.evictedTxs.Remove(hash)
@@ -289,6 +304,9 @@ func (pool *TxPool) GetTransactionStatus(hash common.Hash) (uint, error) {
 func (pool *TxPool) Clear() {
 	middleware.LockBlockchain("Clear")
 	defer middleware.UnLockBlockchain("Clear")
+
+	pool.lock.Lock()
+	defer pool.lock.Unlock()
 
 	executed, _ := db.NewDatabase(txDataBasePrefix)
 	pool.executed = executed
